@@ -17,14 +17,28 @@ from .. import vmv
 PID = "C09"
 
 
-def explore(work, funcs, workers=12, timeout=1500):
+def explore(work, funcs, workers=12, timeout=1500, rets=False):
     work = Path(work)
     C.write_ndjson(work / "dump.ndjson", funcs)
-    r = C.tlc("ExploreVM", "ExploreVM", work / "explore", env=dict(DUMP=str(work / "dump.ndjson")),
+    r = C.tlc("ExploreVM", "ExploreVM", work / "explore", env=dict(DUMP=str(work / "dump.ndjson"), RETS="1" if rets else "0"),
               workers=workers, timeout=timeout, heap_mb=8000)
     if r.error or r.invariant_violated:
         raise C.ToolError(f"ExploreVM: {r.error or r.invariant_violated}")
     return r
+
+
+def explore_two_pass(work, funcs, timeout=3000):
+    """Pass 1 explores every function and records how each activation can end (RET records printed by TLC);
+    the records are copied into the dump (field `rets`, data only) and pass 2 explores again: MSVM then
+    judges ReturnArityUniform per function and gives `call_self` the function's own result count."""
+    r1 = explore(C.fresh_dir(Path(work) / "p1"), funcs, timeout=timeout, rets=True)
+    per = collections.defaultdict(set)
+    for x in r1.prints.get("RET", []):
+        per[x["fi"]].add((x["lo"], x["hi"]))
+    withrets = [dict(f, rets=[dict(lo=a, hi=b) for a, b in sorted(per.get(k + 1, ()))]) for k, f in enumerate(funcs)]
+    r2 = explore(C.fresh_dir(Path(work) / "p2"), withrets, timeout=timeout)
+    # a BAD state of pass 1 stops that path in both passes; pass 2 re-reports it (same relation, sharper call_self)
+    return r1, r2, per
 
 
 def validate_traces(work, traces, funcs, workers=8, timeout=1500):
@@ -80,7 +94,9 @@ def run(tier, replay=None):
     # ---- programs: example corpus + generated programs of the other properties
     sources = corpus.copy_examples(work / "examples")
     gen = progpool.programs(binary, work / "gen", tier, rep.seed)     # list of source paths
-    allsrc = list(sources) + list(gen)
+    feat = progpool.features(binary, work / "feat", tier, rep.seed)   # closures, names, objects, lists / maps, evaluation order
+    flt = progpool.faults(work / "faults")                              # fault catalogue: ill-typed programs + twins
+    allsrc = list(sources) + list(gen) + list(feat) + list(flt)
 
     def dump_group(group):
         out = []
@@ -112,13 +128,22 @@ def run(tier, replay=None):
     ex = _Acc()
     bad = []
     CH = 12000
+    arity = collections.Counter()
     for k in range(0, len(funcs), CH):
         part = funcs[k:k + CH]
-        r = explore(C.fresh_dir(work / f"explore{k}"), part, timeout=3000)
-        ex.distinct += r.distinct
-        ex.generated += r.generated
-        for b in r.prints.get("BAD", []):
-            bad.append(dict(b, fi=b["fi"] + k))
+        r1, r, per = explore_two_pass(C.fresh_dir(work / f"explore{k}"), part, timeout=3000)
+        ex.distinct += r.distinct + r1.distinct
+        ex.generated += r.generated + r1.generated
+        seenb = set()
+        for b in r.prints.get("BAD", []) + r1.prints.get("BAD", []):
+            kb = (b["fi"], b["ip"], tuple(b["checks"]), json.dumps(b["state"], sort_keys=True))
+            if kb not in seenb:
+                seenb.add(kb)
+                bad.append(dict(b, fi=b["fi"] + k))
+        for j in range(len(part)):
+            e = per.get(j + 1, set())
+            c0, c1 = any(h == 0 for _, h in e), any(l >= 1 for l, _ in e)
+            arity["value" if c1 and not c0 else "no value" if c0 and not c1 else "mixed" if c0 and c1 else "never ends / only through calls"] += 1
     for b in bad:
         f = funcs[b["fi"] - 1]
         ins = f["code"][b["ip"]] if b["ip"] < len(f["code"]) else None
@@ -167,11 +192,11 @@ def run(tier, replay=None):
         traces_validated_against_impl=len(traces) + len(vcases), traces_accepted=len(traces) - nrej,
         vm_value_traces=len(vcases), vm_value_traces_accepted=len(vres["accepted"]), vm_value_out_of_model=len(vres["oom"]),
         vm_value_out_of_model_reasons=sorted({o["why"] for o in vres["oom"].values()})[:12], vm_value_not_recorded=sum(1 for _, c, _ in vrec if c is None),
-        functions_explored=len(funcs), programs=len(allsrc), programs_rejected_by_compiler=not_compiled,
+        functions_explored=len(funcs), return_arity_summaries=dict(arity), call_self_sites=ops.get("call_self", 0), programs=len(allsrc), programs_rejected_by_compiler=not_compiled,
         trace_events=sum(len(t["events"]) for t in traces),
         opcode_histogram=dict(ops.most_common()), jmp_pop_with_2_or_more_frames=deep_pops,
         evaluations=len(funcs), distinct_nontrivial=sum(1 for f in funcs if any(i["op"] in ("if_stmt", "while_loop", "jmp_pop", "jmp_not_nil", "store_skip") for i in f["code"])),
-        rule="every distinct function (name+code) dumped by the loader for the example corpus and the generated program pool; non-trivial = contains a branching instruction; each explored over all branch outcomes by TLC",
+        rule="every distinct function (name+code) dumped by the loader for the example corpus, the control-flow pool (GenCtl), the feature pools (GenCapture, GenNames, GenObj, GenHeap, GenOrder) and the fault catalogue (GenFault: ill-typed programs the compiler accepts are explored like any other, and their well-typed twins); two passes: the second knows how every function can end (ReturnArityUniform, result count of call_self); non-trivial = contains a branching instruction; each explored over all branch outcomes by TLC",
         samples=[dict(src=f["src"], name=f["name"], code=[[i["op"]] + i["args"] for i in f["code"][:12]]) for f in funcs[:: max(1, len(funcs) // 3)][:3]],
         exhaustive=False,
     )
